@@ -16,7 +16,11 @@ def parseAttr (s : String) : Option (Name × TraitDef) :=
   | name :: rest =>
     let spec := "=".intercalate rest
     match spec.splitOn ":" with
-    | ["T", vid, dflt] => do pure (nm name, .plain (← vid.toNat?) (← dflt.toInt?))
+    | ["T", vid, dflt] => do pure (nm name, .plain (← vid.toNat?) (← dflt.toInt?) .equality)
+    | ["T", vid, dflt, c] => do
+      let c ← match c with
+        | "n" => some Cmp.none | "i" => some Cmp.identity | "e" => some Cmp.equality | _ => none
+      pure (nm name, .plain (← vid.toNat?) (← dflt.toInt?) c)
     | ["D", raw] => some (nm name, .defer (mkDelegate (nm raw) true))
     | ["P", raw] => some (nm name, .defer (mkDelegate (nm raw) false))
     | _ => none
@@ -54,7 +58,7 @@ def parseClasses (s : String) : Option (List Cls) := do
 def parseValidator (s : String) : Option (Nat → Val → Except Exc Val) :=
   match s.splitOn ":" with
   | ["id"] => some (fun _ x => .ok x)
-  | ["mod7"] => some (fun _ x => .ok (x % 7))
+  | ["mod7"] => some (fun _ x => .ok (if x ≥ 100 then x else x % 7))
   | ["rejneg"] => some (fun _ x => if x < 0 then .error .traitError else .ok x)
   | ["failat", k, e] =>
     match k.toNat? with
@@ -62,8 +66,15 @@ def parseValidator (s : String) : Option (Nat → Val → Except Exc Val) :=
     | none => none
   | _ => none
 
+/-- Python's `==` on the value pool of harness/props/deleglib.py (`EQCLASS`): tokens from 100 on are fixed
+objects — 100 ↦ 1.0, 101 ↦ True, 102/103 two equal tuples, 104 ↦ 3.0, 105 ↦ 4.0, 106/107 two equal lists. -/
+def eqClass (x : Val) : Val :=
+  if x = 100 ∨ x = 101 then 1 else if x = 102 ∨ x = 103 then 1000 else if x = 104 then 3
+  else if x = 105 then 4 else if x = 106 ∨ x = 107 then 1001 else x
+
 def mkEnv (vs : List (Nat → Val → Except Exc Val)) : Env :=
-  { validate := fun vid k x => match vs[vid]? with | some v => v k x | none => .ok x }
+  { validate := fun vid k x => match vs[vid]? with | some v => v k x | none => .ok x,
+    eqv := fun a b => eqClass a == eqClass b }
 
 def parseOp (s : String) : Option Op :=
   match words s with
